@@ -388,3 +388,14 @@ Example ex_multi_read :
   vmdk_read (mk_vmdk ex_multi) (2 * 512) (17 * 512) =
   Ok [(0, SFile 3584 512); (1, SFile 10240 4096); (1, SZero 2048); (1, SZero 1024); (2, SFile 0 1024)].
 Proof. vm_compute. reflexivity. Qed.
+
+(* without a parent the parent-aware assembly is the assembly the theorems above are about *)
+Lemma open_wired_p_false files w : open_wired_p false files w = open_wired files w.
+Proof. reflexivity. Qed.
+
+Theorem assemble_p_no_parent files text :
+  desc_has_parent (parse_descriptor text) = Ok false -> assemble_p files text = assemble files text.
+Proof.
+  intros H. unfold assemble_p, assemble. rewrite H. cbn [bind].
+  f_equal.
+Qed.
